@@ -6,6 +6,7 @@ use std::panic::catch_unwind;
 
 mod statuslist;
 mod jws;
+mod iota;
 
 // the Kani harness bodies, compiled natively (cfg(not(kani))) and fed with CBMC's concrete values
 #[macro_use]
@@ -17,11 +18,14 @@ pub mod stubs;
 pub mod c12;
 #[path = "../../kani/src/c13.rs"]
 pub mod c13;
+#[path = "../../kani/src/c11.rs"]
+pub mod c11;
 
 fn kani_bodies() -> Vec<(&'static str, fn())> {
   let mut v: Vec<(&'static str, fn())> = Vec::new();
   v.extend_from_slice(c12::BODIES);
   v.extend_from_slice(c13::BODIES);
+  v.extend_from_slice(c11::BODIES);
   v
 }
 
@@ -67,6 +71,7 @@ fn main() {
     "statuslist_set" | "statuslist_get" | "statuslist_set_get" => statuslist::run(scenario, &cex),
     "statuslist_oneway" => statuslist::oneway(&cex),
     "jws_binding" => jws::binding(&cex),
+    "state_metadata" => iota::state_metadata(&cex),
     "kani" => kani_replay(&cex),
     "selftest" => selftest(),
     _ => Err(format!("unknown scenario {scenario}")),
